@@ -1,6 +1,6 @@
 (** C06 - containers keep structure: order, arity, None-iff-null, set and map semantics. *)
 From Deserr Require Import Base Pointer Kinds Value Prog Utf8 Scalars Types Deser Spec Monitors.
-From Deserr.proofs Require Import MiscProofs RefineBase RefineLoops RefineStruct SortedIns C06More.
+From Deserr.proofs Require Import MiscProofs RefineBase RefineLoops RefineStruct SortedIns C06More CSProofs.
 
 (** arrays and tuples require exactly their arity; otherwise the whole offending sequence is
     reported once with the expected length, from any state, under any script *)
@@ -150,3 +150,80 @@ Print Assumptions c06_set_distinct.
 Print Assumptions c06_set_covers.
 Print Assumptions c06_map_insert_same.
 Print Assumptions c06_map_insert_other.
+
+(** Comma-separated lists ([CS<T>]) and string keys, for every string: the segments joined with
+    commas are the text, none contains a comma, and that determines them; only *empty* segments
+    are dropped (a blank one is an element); the list succeeds exactly when every remaining segment
+    parses, with the parsed segments in order, and fails with the error of the first one that does
+    not; an integer key or element parses only to a value of the target's domain, and the
+    canonical decimal text of every value of the domain parses to it. *)
+Theorem c06_cs_split_join : forall s, join_comma (split_comma s "") = s.
+Proof. exact split_join. Qed.
+
+Theorem c06_cs_segments_comma_free : forall s, Forall (fun x => comma_free x = true) (split_comma s "").
+Proof. exact split_comma_free. Qed.
+
+Theorem c06_cs_split_determined : forall l, l <> [] -> Forall (fun x => comma_free x = true) l -> split_comma (join_comma l) "" = l.
+Proof. exact split_inverse. Qed.
+
+Theorem c06_cs_dropped_iff_empty : forall s x, In x (segments s) <-> In x (split_comma s "") /\ x <> ""%string.
+Proof. exact segments_spec. Qed.
+
+Theorem c06_cs_ok : forall kp s os, parse_cs kp s = inl os <-> Forall2 (fun x o => parse_key kp x = inl o) (segments s) os.
+Proof. exact parse_cs_ok. Qed.
+
+Theorem c06_cs_err : forall kp s e, parse_cs kp s = inr e <->
+  exists pre x post os, segments s = (pre ++ x :: post)%list /\ Forall2 (fun x o => parse_key kp x = inl o) pre os /\ parse_key kp x = inr e.
+Proof. exact parse_cs_err. Qed.
+
+Theorem c06_cs_strings : forall s, parse_cs KPString s = inl (map OStr (segments s)).
+Proof. exact parse_cs_strings. Qed.
+
+Theorem c06_cs_run : forall script a kp v l s,
+  run script (deser_cs a kp v l) s
+  = match v with
+    | VStr str =>
+      match parse_cs kp str with
+      | inl os => (ROk (OList os), s)
+      | inr e => (RErr (N.of_nat (List.length s)), (s ++ [CError a None (Unexpected (parse_err_msg e)) l])%list)
+      end
+    | _ => (RErr (N.of_nat (List.length s)), (s ++ [CError a None (IncorrectValueKind v [KString]) l])%list)
+    end.
+Proof. exact deser_cs_run. Qed.
+
+Theorem c06_key_int_sound : forall d s z, parse_int d s = inl z -> (imin d <= z <= imax d)%Z /\ (i_nonzero d = true -> z <> 0%Z).
+Proof. exact parse_int_sound. Qed.
+
+Theorem c06_key_int_canonical : forall d z, (imin d <= z <= imax d)%Z -> (i_nonzero d = true -> z <> 0%Z) -> parse_int d (dec_Z z) = inl z.
+Proof. exact parse_int_dec. Qed.
+
+Check c06_cs_split_join : forall s, join_comma (split_comma s "") = s.
+Check c06_cs_segments_comma_free : forall s, Forall (fun x => comma_free x = true) (split_comma s "").
+Check c06_cs_split_determined : forall l, l <> [] -> Forall (fun x => comma_free x = true) l -> split_comma (join_comma l) "" = l.
+Check c06_cs_dropped_iff_empty : forall s x, In x (segments s) <-> In x (split_comma s "") /\ x <> ""%string.
+Check c06_cs_ok : forall kp s os, parse_cs kp s = inl os <-> Forall2 (fun x o => parse_key kp x = inl o) (segments s) os.
+Check c06_cs_err : forall kp s e, parse_cs kp s = inr e <->
+  exists pre x post os, segments s = (pre ++ x :: post)%list /\ Forall2 (fun x o => parse_key kp x = inl o) pre os /\ parse_key kp x = inr e.
+Check c06_cs_strings : forall s, parse_cs KPString s = inl (map OStr (segments s)).
+Check c06_cs_run : forall script a kp v l s,
+  run script (deser_cs a kp v l) s
+  = match v with
+    | VStr str =>
+      match parse_cs kp str with
+      | inl os => (ROk (OList os), s)
+      | inr e => (RErr (N.of_nat (List.length s)), (s ++ [CError a None (Unexpected (parse_err_msg e)) l])%list)
+      end
+    | _ => (RErr (N.of_nat (List.length s)), (s ++ [CError a None (IncorrectValueKind v [KString]) l])%list)
+    end.
+Check c06_key_int_sound : forall d s z, parse_int d s = inl z -> (imin d <= z <= imax d)%Z /\ (i_nonzero d = true -> z <> 0%Z).
+Check c06_key_int_canonical : forall d z, (imin d <= z <= imax d)%Z -> (i_nonzero d = true -> z <> 0%Z) -> parse_int d (dec_Z z) = inl z.
+Print Assumptions c06_cs_split_join.
+Print Assumptions c06_cs_segments_comma_free.
+Print Assumptions c06_cs_split_determined.
+Print Assumptions c06_cs_dropped_iff_empty.
+Print Assumptions c06_cs_ok.
+Print Assumptions c06_cs_err.
+Print Assumptions c06_cs_strings.
+Print Assumptions c06_cs_run.
+Print Assumptions c06_key_int_sound.
+Print Assumptions c06_key_int_canonical.
